@@ -33,10 +33,12 @@ theorem run_table_set_view_fine (fs : FsState) (s : DiskSlice) (hs : IsFatSlice 
     ∃ d' s', run (Table.set DiskSlice.strm fs.fatType s c v) d = (.ok s', d') ∧ IsFatSlice fs s' ∧
       DevStep d d' ∧ d'.fs = d.fs ∧ tabView fs d'.img = updV (tabView fs d.img) c v ∧
       (∀ q, OutsideFat fs q → d'.img.getByte q = d.img.getByte q) ∧
-      (∀ q, ¬ FatEntryPos fs c q → d'.img.getByte q = d.img.getByte q) := by
+      (∀ q, ¬ FatEntryPos fs c q → d'.img.getByte q = d.img.getByte q) ∧
+      (∀ E D : Nat → Prop, E c → Trace fs E D d d') := by
   obtain ⟨d1, s1, arr1, hr, hsl, hset, hu⟩ := run_table_set fs s hs c v d hd.nofault hd.dirty hd.wf hd.geo hc
-  exact ⟨d1, s1, hr, hsl, hu.step, hu.fs_eq,
-    tabView_of_set hd.geo d.img d1.img hc hv (by rw [hu.arr]; exact hset), hu.frame, hu.fine⟩
+  have htv := tabView_of_set hd.geo d.img d1.img hc hv (by rw [hu.arr]; exact hset)
+  exact ⟨d1, s1, hr, hsl, hu.step, hu.fs_eq, htv, hu.frame, hu.fine,
+    fun E D hE => hu.trace hd.geo hd.wf hc htv E D hE⟩
 
 /-- the view after freeing the clusters `cs` -/
 def freedView (g : Nat → FatValue) (cs : List Nat) : Nat → FatValue :=
@@ -66,7 +68,8 @@ theorem run_freeLoop_fine (fs : FsState) : ∀ (cs : List Nat) (n : Nat) (fuel :
     ∃ d' it', run (Table.CIter.freeLoop DiskSlice.strm fs.fatType fuel it num) d = (.ok (num + cs.length, it'), d') ∧
       DevStep d d' ∧ d'.fs = d.fs ∧ tabView fs d'.img = freedView (tabView fs d.img) cs ∧
       (∀ q, OutsideFat fs q → d'.img.getByte q = d.img.getByte q) ∧
-      (∀ q, (∀ x ∈ cs, ¬ FatEntryPos fs x q) → d'.img.getByte q = d.img.getByte q) := by
+      (∀ q, (∀ x ∈ cs, ¬ FatEntryPos fs x q) → d'.img.getByte q = d.img.getByte q) ∧
+      (∀ E D : Nat → Prop, (∀ x ∈ cs, E x) → Trace fs E D d d') := by
   intro cs
   induction cs with
   | nil => intro n fuel it num d _ hch; exact absurd rfl (chain_ne_nil hch)
@@ -84,7 +87,7 @@ theorem run_freeLoop_fine (fs : FsState) : ∀ (cs : List Nat) (n : Nat) (fuel :
     obtain ⟨d1, s1, h1, hs1, hsl1⟩ := run_citer_next fs it m d hd.nofault hd.geo hsl herr hc hmt
     rw [run_bind_ok h1]
     have hd1 := hd.same hs1
-    obtain ⟨d2, s2, h2, hsl2, hst2, hfs2, htv2, hfr2, hfi2⟩ := run_table_set_view_fine fs s1 hsl1 m .free d1 hd1 hmt
+    obtain ⟨d2, s2, h2, hsl2, hst2, hfs2, htv2, hfr2, hfi2, htr2⟩ := run_table_set_view_fine fs s1 hsl1 m .free d1 hd1 hmt
       (rep_free _)
     rw [hs1.img] at htv2
     have hd2 := hd1.step hst2 hfs2
@@ -100,7 +103,8 @@ theorem run_freeLoop_fine (fs : FsState) : ∀ (cs : List Nat) (n : Nat) (fuel :
       subst hk'
       unfold Table.CIter.freeLoop
       simp only
-      refine ⟨d2, _, rfl, (DevStep.of_sameStore hs1).trans hst2, hfs2.trans hs1.fs, ?_, ?_, ?_⟩
+      refine ⟨d2, _, rfl, (DevStep.of_sameStore hs1).trans hst2, hfs2.trans hs1.fs, ?_, ?_, ?_,
+        fun E D hE => (Trace.of_sameStore hs1).trans (htr2 E D (hE m (by simp)))⟩
       · rw [htv2]
         funext x
         unfold freedView updV
@@ -115,11 +119,12 @@ theorem run_freeLoop_fine (fs : FsState) : ∀ (cs : List Nat) (n : Nat) (fuel :
       have hmms : m ∉ ms := (List.nodup_cons.mp hnd).1
       have hch2 : Chain (tabView fs d2.img) k' ms := by
         rw [htv2]; exact chain_updV_other _ m .free _ _ hch' hmms
-      obtain ⟨d3, it3, h3, hst3, hfs3, htv3, hfr3, hfi3⟩ := ih k' k
+      obtain ⟨d3, it3, h3, hst3, hfs3, htv3, hfr3, hfi3, htr3⟩ := ih k' k
         { it with fat := s2, cluster := some k' } (num + 1) d2 hd2 hch2 (List.nodup_cons.mp hnd).2
         (fun x hx => hin x (List.mem_cons_of_mem _ hx)) hfuel' rfl herr hsl2
       refine ⟨d3, it3, ?_, ((DevStep.of_sameStore hs1).trans hst2).trans hst3, (hfs3.trans hfs2).trans hs1.fs, ?_, ?_,
-        ?_⟩
+        ?_, fun E D hE => ((Trace.of_sameStore hs1).trans (htr2 E D (hE m (by simp)))).trans
+          (htr3 E D (fun x hx => hE x (List.mem_cons_of_mem _ hx)))⟩
       · have e : num + 1 + ms.length = num + (m :: ms).length := by simp only [List.length_cons]; omega
         rw [h3, e]
       · rw [htv3, htv2, freedView_cons]
@@ -135,7 +140,8 @@ theorem run_citer_free_fine (fs : FsState) (cs : List Nat) (n fuel : Nat) (s : D
         (.ok (cs.length, it'), d') ∧
       DevStep d d' ∧ d'.fs = d.fs ∧ tabView fs d'.img = freedView (tabView fs d.img) cs ∧
       (∀ q, OutsideFat fs q → d'.img.getByte q = d.img.getByte q) ∧
-      (∀ q, (∀ x ∈ cs, ¬ FatEntryPos fs x q) → d'.img.getByte q = d.img.getByte q) := by
+      (∀ q, (∀ x ∈ cs, ¬ FatEntryPos fs x q) → d'.img.getByte q = d.img.getByte q) ∧
+      (∀ E D : Nat → Prop, (∀ x ∈ cs, E x) → Trace fs E D d d') := by
   obtain ⟨d1, it1, h1, r⟩ := run_freeLoop_fine fs cs n fuel { fat := s, cluster := some n } 0 d hd hch hnd hin hfuel
     rfl rfl hsl
   refine ⟨d1, it1, ?_, r⟩
@@ -151,7 +157,8 @@ theorem run_citer_truncate_fine (fs : FsState) (t : List Nat) (n fuel : Nat) (s 
       DevStep d d' ∧ d'.fs = d.fs ∧
       tabView fs d'.img = freedView (updV (tabView fs d.img) n .eoc) t ∧
       (∀ q, OutsideFat fs q → d'.img.getByte q = d.img.getByte q) ∧
-      (∀ q, (∀ x ∈ n :: t, ¬ FatEntryPos fs x q) → d'.img.getByte q = d.img.getByte q) := by
+      (∀ q, (∀ x ∈ n :: t, ¬ FatEntryPos fs x q) → d'.img.getByte q = d.img.getByte q) ∧
+      (∀ E D : Nat → Prop, (∀ x ∈ n :: t, E x) → Trace fs E D d d') := by
   have hnt : n < fs.totalClusters + 2 := hin n (by simp)
   unfold Table.CIter.truncate
   simp only
@@ -159,7 +166,7 @@ theorem run_citer_truncate_fine (fs : FsState) (t : List Nat) (n fuel : Nat) (s 
     rfl rfl hnt
   rw [run_bind_ok h1]
   have hd1 := hd.same hs1
-  obtain ⟨d2, s2, h2, hsl2, hst2, hfs2, htv2, hfr2, hfi2⟩ := run_table_set_view_fine fs s1 hsl1 n .eoc d1 hd1 hnt (rep_eoc _)
+  obtain ⟨d2, s2, h2, hsl2, hst2, hfs2, htv2, hfr2, hfi2, htr2⟩ := run_table_set_view_fine fs s1 hsl1 n .eoc d1 hd1 hnt (rep_eoc _)
   rw [hs1.img] at htv2
   have hd2 := hd1.step hst2 hfs2
   cases hch with
@@ -171,7 +178,7 @@ theorem run_citer_truncate_fine (fs : FsState) (t : List Nat) (n fuel : Nat) (s 
     obtain ⟨k, hk⟩ : ∃ k, fuel = k + 1 := ⟨fuel - 1, by omega⟩
     subst hk
     refine ⟨d2, { fat := s2, cluster := none }, ?_, (DevStep.of_sameStore hs1).trans hst2, hfs2.trans hs1.fs, ?_, ?_,
-      ?_⟩
+      ?_, fun E D hE => (Trace.of_sameStore hs1).trans (htr2 E D (hE n (by simp)))⟩
     · unfold Table.CIter.free Table.CIter.freeLoop
       rfl
     · rw [htv2, freedView_nil]
@@ -185,10 +192,11 @@ theorem run_citer_truncate_fine (fs : FsState) (t : List Nat) (n fuel : Nat) (s 
     have hnt' : n ∉ t := (List.nodup_cons.mp hnd).1
     have hch2 : Chain (tabView fs d2.img) k' t := by
       rw [htv2]; exact chain_updV_other _ n .eoc _ _ hch' hnt'
-    obtain ⟨d3, it3, h3, hst3, hfs3, htv3, hfr3, hfi3⟩ := run_citer_free_fine fs t k' fuel s2 d2 hd2 hch2
+    obtain ⟨d3, it3, h3, hst3, hfs3, htv3, hfr3, hfi3, htr3⟩ := run_citer_free_fine fs t k' fuel s2 d2 hd2 hch2
       (List.nodup_cons.mp hnd).2 (fun x hx => hin x (List.mem_cons_of_mem _ hx)) (by omega) hsl2
     refine ⟨d3, it3, h3, ((DevStep.of_sameStore hs1).trans hst2).trans hst3, (hfs3.trans hfs2).trans hs1.fs, ?_, ?_,
-      ?_⟩
+      ?_, fun E D hE => ((Trace.of_sameStore hs1).trans (htr2 E D (hE n (by simp)))).trans
+        (htr3 E D (fun x hx => hE x (List.mem_cons_of_mem _ hx)))⟩
     · rw [htv3, htv2]
     · intro q hq; rw [hfr3 q hq, hfr2 q hq, hs1.img]
     · intro q hq
@@ -231,9 +239,10 @@ theorem run_truncateClusterChain_fine (cur : Nat) (t : List Nat) (d : Dev) (hd :
     ∃ d', run (truncateClusterChain cur) d = (.ok (), d') ∧ DevStep d d' ∧
       tabView d'.fs d'.img = freedView (updV (tabView d.fs d.img) cur .eoc) t ∧ InfoOk d'.fs d'.img ∧
       (∀ q, OutsideFat d.fs q → d'.img.getByte q = d.img.getByte q) ∧
-      (∀ q, (∀ x ∈ cur :: t, ¬ FatEntryPos d.fs x q) → d'.img.getByte q = d.img.getByte q) := by
+      (∀ q, (∀ x ∈ cur :: t, ¬ FatEntryPos d.fs x q) → d'.img.getByte q = d.img.getByte q) ∧
+      (∀ E D : Nat → Prop, (∀ x ∈ cur :: t, E x) → Trace d.fs E D d d') := by
   have hfuel := chain_fuel_ok hnd (fun x hx => (hin x hx).2.1)
-  obtain ⟨d1, it1, h1, hst1, hfs1, htv1, hfr1, hfi1⟩ := run_citer_truncate_fine d.fs t cur (chainFuel d.fs) (fatSliceOf d.fs) d hd
+  obtain ⟨d1, it1, h1, hst1, hfs1, htv1, hfr1, hfi1, htr1⟩ := run_citer_truncate_fine d.fs t cur (chainFuel d.fs) (fatSliceOf d.fs) d hd
     hch hnd (fun x hx => (hin x hx).2.1) (by simp at hfuel ⊢; omega) (isFatSlice_self _)
   unfold truncateClusterChain
   rw [run_bind_ok (run_getFs d)]
@@ -242,7 +251,8 @@ theorem run_truncateClusterChain_fine (cur : Nat) (t : List Nat) (d : Dev) (hd :
   have hgeo : FsGeomEq d.fs ({ d1.fs with fsInfo := d1.fs.fsInfo.mapFree (· + t.length) } : FsState) := by
     rw [hfs1]; rfl
   have hcurnt : cur ∉ t := (List.nodup_cons.mp hnd).1
-  refine ⟨_, rfl, ⟨hst1.failAt, hst1.size, hst1.wf, hgeo, hst1.clock⟩, ?_, ?_, hfr1, hfi1⟩
+  refine ⟨_, rfl, ⟨hst1.failAt, hst1.size, hst1.wf, hgeo, hst1.clock⟩, ?_, ?_, hfr1, hfi1,
+    fun E D hE => by obtain ⟨r, l, i, c⟩ := htr1 E D hE; exact ⟨r, l, i, c⟩⟩
   · show tabView ({ d1.fs with fsInfo := d1.fs.fsInfo.mapFree (· + t.length) } : FsState) d1.img = _
     rw [hgeo.tabView]; exact htv1
   · show InfoOk ({ d1.fs with fsInfo := d1.fs.fsInfo.mapFree (· + t.length) } : FsState) d1.img
@@ -268,9 +278,10 @@ theorem run_freeClusterChain_fine (n : Nat) (cs : List Nat) (d : Dev) (hd : FatD
     ∃ d', run (freeClusterChain n) d = (.ok (), d') ∧ DevStep d d' ∧
       tabView d'.fs d'.img = freedView (tabView d.fs d.img) cs ∧ InfoOk d'.fs d'.img ∧
       (∀ q, OutsideFat d.fs q → d'.img.getByte q = d.img.getByte q) ∧
-      (∀ q, (∀ x ∈ cs, ¬ FatEntryPos d.fs x q) → d'.img.getByte q = d.img.getByte q) := by
+      (∀ q, (∀ x ∈ cs, ¬ FatEntryPos d.fs x q) → d'.img.getByte q = d.img.getByte q) ∧
+      (∀ E D : Nat → Prop, (∀ x ∈ cs, E x) → Trace d.fs E D d d') := by
   have hfuel := chain_fuel_ok hnd (fun x hx => (hin x hx).2.1)
-  obtain ⟨d1, it1, h1, hst1, hfs1, htv1, hfr1, hfi1⟩ := run_citer_free_fine d.fs cs n (chainFuel d.fs) (fatSliceOf d.fs) d hd
+  obtain ⟨d1, it1, h1, hst1, hfs1, htv1, hfr1, hfi1, htr1⟩ := run_citer_free_fine d.fs cs n (chainFuel d.fs) (fatSliceOf d.fs) d hd
     hch hnd (fun x hx => (hin x hx).2.1) hfuel (isFatSlice_self _)
   unfold freeClusterChain
   rw [run_bind_ok (run_getFs d)]
@@ -278,7 +289,8 @@ theorem run_freeClusterChain_fine (n : Nat) (cs : List Nat) (d : Dev) (hd : FatD
   rw [run_bind_ok h1, run_modifyFs]
   have hgeo : FsGeomEq d.fs ({ d1.fs with fsInfo := d1.fs.fsInfo.mapFree (· + cs.length) } : FsState) := by
     rw [hfs1]; rfl
-  refine ⟨_, rfl, ⟨hst1.failAt, hst1.size, hst1.wf, hgeo, hst1.clock⟩, ?_, ?_, hfr1, hfi1⟩
+  refine ⟨_, rfl, ⟨hst1.failAt, hst1.size, hst1.wf, hgeo, hst1.clock⟩, ?_, ?_, hfr1, hfi1,
+    fun E D hE => by obtain ⟨r, l, i, c⟩ := htr1 E D hE; exact ⟨r, l, i, c⟩⟩
   · show tabView ({ d1.fs with fsInfo := d1.fs.fsInfo.mapFree (· + cs.length) } : FsState) d1.img = _
     rw [hgeo.tabView]; exact htv1
   · show InfoOk ({ d1.fs with fsInfo := d1.fs.fsInfo.mapFree (· + cs.length) } : FsState) d1.img
